@@ -462,6 +462,11 @@ fn history_case(seed: u64, idx: usize, bin: &str, rt: &std::sync::Arc<tokio::run
                 ];
                 rpcs += results.len() as u64;
                 for (rpc, code) in results {
+                    // a connection-level failure is not an answer of the server at all
+                    if matches!(code, Some(Code::Unknown) | Some(Code::Unavailable) | Some(Code::Cancelled) | Some(Code::DeadlineExceeded)) {
+                        out.inconclusive(format!("case {}: {} with a {} key failed at the connection level ({:?})", idx, rpc, name, code));
+                        return;
+                    }
                     if code != Some(Code::Unauthenticated) {
                         viol!(format!("rpc-served-without-valid-key|{}", rpc), "step {}: {} with a {} key answered {:?} instead of UNAUTHENTICATED", step, rpc, name, code);
                     }
